@@ -7,6 +7,12 @@ CONC_NOTE = ("Proved for all interleavings of the atomic steps of any number of 
              "a weakened ordering is detected as a broken correspondence (… no-failing-input-found), it cannot be exhibited by an SC scheduler. ")
 
 META = {
+    "C16": dict(
+        text="Kernel-checked over the two data models (protobuf-generated types with optional fields and default-on-read + proto_ext.rs, vs plain_model.rs): metric_step / family_step (every setter / take / push the library performs commutes with the abstraction), "
+             "build_agree, render_agree (for EVERY sequence of data-model calls from default(): name, help, type, labels, counter/gauge value, histogram count/sum/buckets and timestamp read the same in both models), defaults_agree. "
+             "Tie: the same scenario scripts run through the real crate built with default features and with --no-default-features (pv-plain); gather structure and text bytes must be identical (oracle) and equal to the Lean registry+text model (correspondence).",
+        note="Build equivalence of everything outside the data model (cfg'd code paths) is validated per scenario, not proved. Both harness crates are path dependencies on /repo and are rebuilt by cargo when the sources change.",
+    ),
     "C13": dict(
         text="Kernel-checked: compatible_generated (decide +kernel over the REGENERATED tables: every field the generated Rust code writes is declared in proto_model.proto with the same name, number, repetition, compatible type and matching size rule, and vice versa), "
              "package_is_prometheus, metric_type_numbers, varint_roundtrip (all values < 2^64), fixed64_roundtrip (every f64 bit pattern), refused_iff (Err exactly for a family without name or samples), stream_is_concatenation (one length-delimited frame per family, in order). "
